@@ -222,6 +222,13 @@ fn plan(prop: &str, tier: &str) -> Plan {
         let n = family_items("castle-shaped-moves", fam, 0, &mut items);
         fams.push(json!({"family": "castle-shaped moves (rook / queen on e1 or e8 sliding two files while castling rights exist)", "members": n, "depth": 0, "complete": true}));
     }
+    // sixteen men with two or three queens against a king two squares from theirs
+    if matches!(prop, "C01" | "C06") {
+        let fam = crowded_armies();
+        let fam: Vec<Pos> = if prop == "C06" && !thorough { fam.into_iter().step_by(8).collect() } else { fam };
+        let n = family_items("crowded-armies", fam, 0, &mut items);
+        fams.push(json!({"family": "crowded armies (16 men with 2 or 3 queens, the other king two squares from theirs)", "members": n, "depth": 0}));
+    }
     // two pawns capture-promoting on one square, exactly one of them pinned
     if matches!(prop, "C01" | "C02") {
         let fam = convergent_promotions();
